@@ -17,7 +17,7 @@ import subprocess
 import sys
 
 from mc import drivers as DR
-from mc import env, pool
+from mc import env, jwire, pool
 from mc import terms as T
 from mc.explore import threads as TH
 from mc.terms import B, DEFAULT, I, L
@@ -162,6 +162,12 @@ def default_stream(seq) -> bytes:
                                                      generalized=False, rdf_star=False))
 
 
+def with_leading_frames(data: bytes, lead: list) -> bytes:
+    """`data` with row-less frames (empty or metadata-only) put before its first frame: a grouped
+    parser hands out one (empty) group per such frame, so a parser can be suspended among them."""
+    return jwire.write_delimited(lead + jwire.split_delimited(data))
+
+
 TYPED3 = [(I(f"http://t/s{i}"), I("http://t/p"), L(str(i), None, f"http://t/d{i % 2}"))
           for i in range(4)]
 S3PLAIN = [(I(f"http://u/s{i}"), I("http://u/p"), L(str(i))) for i in range(3)]
@@ -209,6 +215,12 @@ def step_workloads() -> dict:
         "parse-rdflib-flat": w_parse("rdflib", "flat", d4),
         "parse-generic-grouped": w_parse("generic", "grouped", d4),
         "parse-rdflib-grouped": w_parse("rdflib", "grouped", d3),
+        # streams that open with frames without rows (the reader collects them while it looks
+        # for the options row): grouped parsers suspended among those frames
+        "parse-generic-grouped-lead3": w_parse("generic", "grouped", with_leading_frames(
+            d4, [jwire.enc_frame([], {"k": b"1"}), b"", jwire.enc_frame([], {"k": b"3"})])),
+        "parse-rdflib-grouped-lead2": w_parse("rdflib", "grouped", with_leading_frames(
+            d3, [b"", jwire.enc_frame([], {"m": b"x"})])),
     }
     return w
 
@@ -1076,7 +1088,7 @@ def run(ctx) -> None:
         samples=merged["samples"],
         rule=(
             "(a) every merge of the step sequences (statement-level serializer steps, parser "
-            "generator steps) of every pair (thorough: also triple) of 14 workloads incl. two "
+            f"generator steps) of every pair (thorough: also triple) of {len(wl)} workloads incl. two "
             "streams sharing one SerializerOptions; (b) every ordered pair of 8 thread workloads "
             f"under every schedule with <= {bound} preemption(s) at line granularity inside "
             "pyjelly (thorough: 2-preemption schedules with stride 3 on the 5 serializer workloads and "
